@@ -5,7 +5,8 @@ From Coq Require Import List PArith Bool String Arith.
 From Coq Require Import Reals ZArith.
 From PV Require Import Model.ForceField Model.Topology Model.Moves Proofs.Moves.
 From PV Require Import Model.Quatfit Model.Debump Proofs.Debump Proofs.DebumpTable.
-From PV Require Import Generated.Topology Generated.MovesTable.
+From PV Require Import Model.Flip Proofs.Quatfit Proofs.Flip Proofs.FlipR.
+From PV Require Import Generated.Topology Generated.MovesTable Generated.FlipTable.
 Import ListNotations.
 
 (* For ALL bond graphs, ALL moved sets M meeting the (boolean, checkable)
@@ -188,6 +189,89 @@ Example C04_debump_nonvacuous :
   (forall w n req d, cong360 (fst (o_set R unit (mkoracle R unit (fun w _ => (0%R, w)) (fun w => ([], w)) (fun w _ req _ => (req, w))) w n req d)) req).
 Proof. exact debump_nonvacuous. Qed.
 
+(* ---------------------------------------------------------------------- *)
+(* the flip path: hydrogens/structures.py Flip (Model/Flip.v)                 *)
+
+(* For ALL residues (atom lists without *FLIP atoms), ALL rotated sets M, ANY motion Rt, and
+   EVERY sequence of fix_flip with a FLIP-named atom / fix_flip with a plain-named atom / finalize calls between
+   Flip.__init__ and complete(): afterwards the residue is fixed, has no *FLIP atom, and its
+   coordinates by name are EITHER exactly the input coordinates OR the input with the WHOLE set M
+   moved by Rt - never a mixture.  (Hypothesis: "HO", which the code drops from the copy list of a
+   C-terminal residue, is not among the rotated atoms - C04_flip_table shows that.) *)
+Theorem C04_flip_all_or_nothing :
+  forall (P : Type) (Rt : P -> P) (HO : id) (is_c_term : bool) (M : list id)
+         (atoms0 : list (fatom P)) (ops : list fop),
+  (forall a, In a atoms0 -> fa_flip a = false) ->
+  (is_c_term = false \/ mem HO M = false) ->
+  let r := flip_run Rt M (copy_names HO is_c_term M) ops atoms0 in
+  snd r = true /\
+  (forall a, In a (fst r) -> fa_flip a = false) /\
+  ((forall n, coords_of (fst r) n = coords_of atoms0 n) \/
+   (forall n, coords_of (fst r) n = moved_coords Rt M atoms0 n)).
+Proof. exact flip_all_or_nothing_code. Qed.
+
+(* coordinates over R^3, the motion = Debump.set_dihedral_angle's rotation with cos = -1, sin = 0
+   about the b - c bond (non-degenerate), M meeting the graph conditions: in both outcomes every
+   bonded pair and every 1-3 pair of kept atoms present in the input has its input distance *)
+Theorem C04_flip_rigid :
+  forall (keep : id -> bool) (g : graph) (b c : id) (M : list id) (HO : id) (is_c_term : bool)
+         (atoms0 : list (fatom Rpt)) (pb pc : Rpt) (ops : list fop),
+  (forall a, In a atoms0 -> fa_flip a = false) ->
+  (is_c_term = false \/ mem HO M = false) ->
+  coords_of atoms0 b = Some pb -> coords_of atoms0 c = Some pc ->
+  dot3 RA (psub RA pc pb) (psub RA pc pb) <> 0%R ->
+  rigid_ok keep g b c M = true ->
+  let final := coords_of (fst (flip_run (rot180 pb pc) M (copy_names HO is_c_term M) ops atoms0)) in
+  (forall u v pu pv, In u (nodes g) -> In v (nbrs g u) -> keep u = true -> keep v = true ->
+     coords_of atoms0 u = Some pu -> coords_of atoms0 v = Some pv ->
+     exists pu' pv', final u = Some pu' /\ final v = Some pv' /\ dist2 pu' pv' = dist2 pu pv) /\
+  (forall u v w pu pw, In v (nodes g) -> In u (nbrs g v) -> In w (nbrs g v) ->
+     keep u = true -> keep v = true -> keep w = true ->
+     coords_of atoms0 u = Some pu -> coords_of atoms0 w = Some pw ->
+     exists pu' pw', final u = Some pu' /\ final w = Some pw' /\ dist2 pu' pw' = dist2 pu pw).
+Proof. exact flip_rigid_R. Qed.
+
+(* over R the 180-degree rotation about a non-degenerate axis is an involution (flipping twice
+   restores every coordinate exactly), preserves distances and fixes both axis atoms.  In binary64
+   the code rotates by cos(pi) = -1.0, sin(pi) = 1.2246e-16: the tie measures the round trip *)
+Theorem C04_flip_involution :
+  forall o a : Rpt, dot3 RA (psub RA a o) (psub RA a o) <> 0%R ->
+  (forall p, rot180 o a (rot180 o a p) = p) /\
+  (forall p q, dist2 (rot180 o a p) (rot180 o a q) = dist2 p q) /\
+  rot180 o a o = o /\ rot180 o a a = a.
+Proof. exact rot180_facts. Qed.
+
+(* generated obligation (HYDROGENS.xml through the repo's loader): every template x dihedral that is
+   the optangle of a Flip definition meets the rigidity conditions on heavy atoms under all terminus
+   flags, its moved set contains no backbone atom and not HO, and every Flip definition has the
+   template of its own name among them *)
+Theorem C04_flip_table :
+  forallb (fun p => ok_all_flags keep_heavy p &&
+                    forallb (fun f : bool * bool =>
+                               match ranks nm (fst f) (snd f) (tgraph (fst p)) with
+                               | Some rk => negb (mem (nm_HO nm) (moveable (tgraph (fst p)) rk (let '(_, _, c, _) := snd p in c)))
+                               | None => false
+                               end) [(false, false); (true, false); (false, true); (true, true)])
+          flip_pairs = true /\
+  forallb (fun fd => existsb (fun p => Pos.eqb (tr_name (fst p)) (fst fd) && dih_eqb (snd p) (snd fd)) flip_pairs) flip_defs = true /\
+  Nat.leb 3 (List.length flip_defs) = true.
+Proof. vm_compute. repeat split; reflexivity. Qed.
+
+(* non-vacuity: an ASN-like residue on the integer lattice, motion = rotation by 180 degrees about
+   the z axis through CB and CG; both outcomes occur, and flipping twice gives the input back *)
+Example C04_flip_nonvacuous :
+  rigid_ok (fun _ => true) fx_graph 4%positive 5%positive fx_M = true /\
+  (forall p q, zdist (zrot p) (zrot q) = zdist p q) /\
+  zrot (0, 0, 0)%Z = (0, 0, 0)%Z /\ zrot (0, 0, 2)%Z = (0, 0, 2)%Z /\
+  flip_run zrot fx_M fx_M [] fx_atoms
+    = (firstn 5 fx_atoms ++ [mkfatom 6%positive false (2, 0, 3)%Z; mkfatom 7%positive false (-2, 1, 3)%Z], true)%list /\
+  flip_run zrot fx_M fx_M [FixFlip true; FixFlip false; Finalize] fx_atoms = flip_run zrot fx_M fx_M [] fx_atoms /\
+  flip_run zrot fx_M fx_M [FixFlip false; FixFlip true] fx_atoms
+    = (firstn 5 fx_atoms ++ [mkfatom 6%positive false (-2, 0, 3)%Z; mkfatom 7%positive false (2, -1, 3)%Z], true)%list /\
+  map (fun a => (fa_name a, fa_pos a)) (fst (flip_run zrot fx_M fx_M [FixFlip false] (fst (flip_run zrot fx_M fx_M [FixFlip false] fx_atoms))))
+    = map (fun a => (fa_name a, fa_pos a)) fx_atoms.
+Proof. exact flip_nonvacuous. Qed.
+
 Print Assumptions C04_bond_preserved.
 Print Assumptions C04_angle_preserved.
 Print Assumptions C04_frame.
@@ -204,3 +288,8 @@ Print Assumptions C04_debump_net_rotation.
 Print Assumptions C04_debump_attempt_ends_at_bestangle.
 Print Assumptions C04_debump_nonvacuous.
 Print Assumptions C04_moved_set_order_table_partial.
+Print Assumptions C04_flip_all_or_nothing.
+Print Assumptions C04_flip_rigid.
+Print Assumptions C04_flip_involution.
+Print Assumptions C04_flip_table.
+Print Assumptions C04_flip_nonvacuous.
